@@ -128,14 +128,14 @@ func init() {
 			}
 			return -1
 		},
-		"internal/bytealg.Equal":       func(fr *frame, a []value) value { return equalSeq(seqOf(a[0]), seqOf(a[1])) },
-		"bytes.Equal":                  func(fr *frame, a []value) value { return equalSeq(seqOf(a[0]), seqOf(a[1])) },
-		"internal/bytealg.Compare":     func(fr *frame, a []value) value { return compareSeq(seqOf(a[0]), seqOf(a[1])) },
+		"internal/bytealg.Equal":         func(fr *frame, a []value) value { return equalSeq(seqOf(a[0]), seqOf(a[1])) },
+		"bytes.Equal":                    func(fr *frame, a []value) value { return equalSeq(seqOf(a[0]), seqOf(a[1])) },
+		"internal/bytealg.Compare":       func(fr *frame, a []value) value { return compareSeq(seqOf(a[0]), seqOf(a[1])) },
 		"internal/bytealg.CompareString": func(fr *frame, a []value) value { return compareSeq(seqOf(a[0]), seqOf(a[1])) },
-		"internal/bytealg.Count":       func(fr *frame, a []value) value { return countSeq(seqOf(a[0]), a[1]) },
-		"internal/bytealg.CountString": func(fr *frame, a []value) value { return countSeq(seqOf(a[0]), a[1]) },
-		"internal/bytealg.Index":       func(fr *frame, a []value) value { return indexSeq(seqOf(a[0]), seqOf(a[1])) },
-		"internal/bytealg.IndexString": func(fr *frame, a []value) value { return indexSeq(seqOf(a[0]), seqOf(a[1])) },
+		"internal/bytealg.Count":         func(fr *frame, a []value) value { return countSeq(seqOf(a[0]), a[1]) },
+		"internal/bytealg.CountString":   func(fr *frame, a []value) value { return countSeq(seqOf(a[0]), a[1]) },
+		"internal/bytealg.Index":         func(fr *frame, a []value) value { return indexSeq(seqOf(a[0]), seqOf(a[1])) },
+		"internal/bytealg.IndexString":   func(fr *frame, a []value) value { return indexSeq(seqOf(a[0]), seqOf(a[1])) },
 		"internal/bytealg.MakeNoZero": func(fr *frame, a []value) value {
 			n := int(concInt(a[0]))
 			r := make([]value, n)
@@ -156,9 +156,9 @@ func init() {
 			return mkString(b[1].([]value))
 		},
 		"(*strings.Builder).copyCheck": noop,
-		"(*strings.Builder).grow": func(fr *frame, a []value) value { return nil },
-		"(*strings.Builder).Grow": func(fr *frame, a []value) value { return nil },
-		"strings.Clone": func(fr *frame, a []value) value { return a[0] },
+		"(*strings.Builder).grow":      func(fr *frame, a []value) value { return nil },
+		"(*strings.Builder).Grow":      func(fr *frame, a []value) value { return nil },
+		"strings.Clone":                func(fr *frame, a []value) value { return a[0] },
 
 		// ---- sync / atomic: single-threaded unless the scheduler is active
 		"(*sync.Mutex).Lock":      syncOp("Lock"),
@@ -177,20 +177,20 @@ func init() {
 			newFn := p[len(p)-1]
 			return callMaybe(fr, newFn)
 		},
-		"(*sync.Pool).Put":      noop,
-		"runtime.SetFinalizer":  noop,
-		"runtime.KeepAlive":     noop,
-		"runtime.Gosched":       noop,
-		"runtime.GC":            noop,
-		"runtime.Caller":        func(fr *frame, a []value) value { return tuple{uintptr(0), "", 0, false} },
-		"runtime.Callers":       func(fr *frame, a []value) value { return 0 },
-		"runtime/debug.Stack":   func(fr *frame, a []value) value { return []value{} },
-		"time.Now":              func(fr *frame, a []value) value { panic(engineAbort{"unsupported", "code under test reads the clock"}) },
-		"time.Sleep":            noop,
-		"os.Getenv":             func(fr *frame, a []value) value { return "" },
-		"os.LookupEnv":          func(fr *frame, a []value) value { return tuple{"", false} },
-		"math/rand.Int":         func(fr *frame, a []value) value { panic(engineAbort{"unsupported", "code under test uses randomness"}) },
-		"math/rand.Intn":        func(fr *frame, a []value) value { panic(engineAbort{"unsupported", "code under test uses randomness"}) },
+		"(*sync.Pool).Put":     noop,
+		"runtime.SetFinalizer": noop,
+		"runtime.KeepAlive":    noop,
+		"runtime.Gosched":      noop,
+		"runtime.GC":           noop,
+		"runtime.Caller":       func(fr *frame, a []value) value { return tuple{uintptr(0), "", 0, false} },
+		"runtime.Callers":      func(fr *frame, a []value) value { return 0 },
+		"runtime/debug.Stack":  func(fr *frame, a []value) value { return []value{} },
+		"time.Now":             func(fr *frame, a []value) value { panic(engineAbort{"unsupported", "code under test reads the clock"}) },
+		"time.Sleep":           noop,
+		"os.Getenv":            func(fr *frame, a []value) value { return "" },
+		"os.LookupEnv":         func(fr *frame, a []value) value { return tuple{"", false} },
+		"math/rand.Int":        func(fr *frame, a []value) value { panic(engineAbort{"unsupported", "code under test uses randomness"}) },
+		"math/rand.Intn":       func(fr *frame, a []value) value { panic(engineAbort{"unsupported", "code under test uses randomness"}) },
 
 		// ---- math helpers implemented via unsafe or assembly
 		"math.Float64bits":     func(fr *frame, a []value) value { return math.Float64bits(a[0].(float64)) },
@@ -208,14 +208,14 @@ func init() {
 			f, e := math.Frexp(a[0].(float64))
 			return tuple{f, e}
 		},
-		"math.Pow":   func(fr *frame, a []value) value { return math.Pow(a[0].(float64), a[1].(float64)) },
-		"math.Log2":  func(fr *frame, a []value) value { return math.Log2(a[0].(float64)) },
-		"math.Log10": func(fr *frame, a []value) value { return math.Log10(a[0].(float64)) },
-		"math.IsInf": func(fr *frame, a []value) value { return math.IsInf(a[0].(float64), int(concInt(a[1]))) },
+		"math.Pow":     func(fr *frame, a []value) value { return math.Pow(a[0].(float64), a[1].(float64)) },
+		"math.Log2":    func(fr *frame, a []value) value { return math.Log2(a[0].(float64)) },
+		"math.Log10":   func(fr *frame, a []value) value { return math.Log10(a[0].(float64)) },
+		"math.IsInf":   func(fr *frame, a []value) value { return math.IsInf(a[0].(float64), int(concInt(a[1]))) },
 		"math.Signbit": func(fr *frame, a []value) value { return math.Signbit(a[0].(float64)) },
-		"math.Mod":   func(fr *frame, a []value) value { return math.Mod(a[0].(float64), a[1].(float64)) },
-		"math.Round": func(fr *frame, a []value) value { return math.Round(a[0].(float64)) },
-		"math.FMA":   func(fr *frame, a []value) value { return math.FMA(a[0].(float64), a[1].(float64), a[2].(float64)) },
+		"math.Mod":     func(fr *frame, a []value) value { return math.Mod(a[0].(float64), a[1].(float64)) },
+		"math.Round":   func(fr *frame, a []value) value { return math.Round(a[0].(float64)) },
+		"math.FMA":     func(fr *frame, a []value) value { return math.FMA(a[0].(float64), a[1].(float64), a[2].(float64)) },
 
 		// strconv pieces that are cheap to provide natively for concrete operands
 		"strconv.Itoa": func(fr *frame, a []value) value {
@@ -342,5 +342,53 @@ func syncOp(kind string) externalFn {
 func yield(kind string) {
 	if sched != nil {
 		sched.yield(kind)
+	}
+}
+
+// ---- encoding/json.Unmarshal into *string / *json.Number (reflection in the real library)
+
+func allConcrete(b []value) bool {
+	for _, x := range b {
+		if _, ok := x.(symInt); ok {
+			return false
+		}
+	}
+	return true
+}
+
+func init() {
+	externals["encoding/json.Unmarshal"] = func(fr *frame, a []value) value {
+		data := a[0].([]value)
+		tgt := a[1].(iface)
+		tn := typeName(tgt.t)
+		jp := fr.i.prog.ImportedPackage("encoding/json")
+		mp := fr.i.prog.ImportedPackage("verif/engine/vfmodel")
+		if mp == nil {
+			panic(engineAbort{"unsupported", "json.Unmarshal model package not loaded"})
+		}
+		syntaxErr := func(off value) value {
+			t := jp.Type("SyntaxError")
+			var cell value = structure{"invalid JSON", off}
+			return iface{types.NewPointer(t.Type()), &cell}
+		}
+		switch tn {
+		case "*string":
+			res := call(fr.i, fr, 0, mp.Func("UnmarshalString"), []value{data}).(tuple)
+			off := res[1]
+			if truth(binop(token.LSS, types.Typ[types.Int64], off, int64(0))) {
+				*tgt.v.(*value) = res[0]
+				return iface{}
+			}
+			return syntaxErr(off)
+		case "*json.Number":
+			ok := call(fr.i, fr, 0, mp.Func("ValidNumberToken"), []value{data})
+			if truth(ok) {
+				// the literal text, trimmed of JSON whitespace (none in hcl's tokens)
+				*tgt.v.(*value) = mkString(data)
+				return iface{}
+			}
+			return syntaxErr(int64(1))
+		}
+		panic(engineAbort{"unsupported", "json.Unmarshal into " + tn})
 	}
 }
